@@ -20,6 +20,7 @@ package policy_test
 import (
 	"encoding/json"
 	"fmt"
+	"os"
 	"strings"
 	"sync"
 	"testing"
@@ -401,6 +402,10 @@ func c21RunMeta(c c21Case) (verifkit.Outcome, error) {
 		labels = append(labels, "verdict-flipped")
 	}
 	o := verifkit.Outcome{NonTrivial: nt || flipped, Labels: labels}
+	if os.Getenv("VERIF_C21_RELATION_ONLY") != "" {
+		// machinery validation only: shows what the relation catches on its own
+		return o, nil
+	}
 	if err := c21Compare(orig, before, refB); err != nil {
 		return o, err
 	}
